@@ -44,6 +44,14 @@ for f in conflicted():
                 if l and l not in lines:
                     lines.append(l)
         open(f, 'w').write('\n'.join(lines) + '\n')
+    elif f.endswith('.md') or f.endswith('lean/LA.lean') or f == 'lean/LA.lean' or f == 'tools/lib/extract.py':
+        import tempfile
+        tmp = []
+        for st in (2, 1, 3):
+            t = tempfile.NamedTemporaryFile('w', delete=False, suffix='.m'); t.write(show(st, f)); t.close(); tmp.append(t.name)
+        r = subprocess.run(['git', 'merge-file', '--union', '-p'] + tmp, capture_output=True, text=True)
+        open(f, 'w').write(r.stdout)
+        for t in tmp: os.unlink(t)
     else:
         print('MANUAL:', f); continue
     subprocess.run(['git', 'add', f])
